@@ -1,4 +1,5 @@
 import Frp.Engines.Router
+import Frp.Engines.VReg
 import Frp.Engines.HttpAuth
 import Frp.Engines.Ports
 import Frp.Engines.Release
@@ -25,6 +26,7 @@ namespace Frp.Engines
 open Frp.Proto
 def all : List (String × Engine) :=
   [ ("router", router)
+  , ("vreg", vreg)
   , ("httpauth", httpauth)
   , ("ports", ports)
   , ("release", release)
